@@ -244,11 +244,11 @@ def run(ck):
     ck.rule = ("files: TLC enumerates the whole state graph of the file store (3 keys with a shared directory prefix, 2 values, 2 instances; thorough: "
                "5 keys) and prints every edge (operation, result); a walk that takes every edge, followed by seeded random steps, is executed on real "
                "ChordStorage instances over a single-node DHT and every returned value/error/listing plus the full store content after each step is "
-               "compared; a second key set has a sibling directory whose name extends the listed one.  locks: TLC checks Mutex of the lease model, "
+               "compared; a second key set has a sibling directory whose name extends the listed one, a third a name that is a key and a directory at once.  locks: TLC checks Mutex of the lease model, "
                "seeded behaviours (request/acquire/release/abandon, 2 instances, 2 lock names) plus three directed ones run with the real clock and 1 s "
                "leases; recorded hold intervals are judged by TLC (NoOverlap).  non-trivial = operation on a non-empty store / behaviour with contention")
     ck.assumptions += ["values are non-empty (an empty value is 'absent' by the KV contract, DESIGN 4.0)",
-                       "a directory exists only while it contains a key; listing a key that is itself a file is not judged",
+                       "a directory exists only while it contains a key; a name that is both a stored key and a directory is one immediate child of its parent",
                        "a holder's interval is [Lock returned, Unlock called]; a dead holder's interval ends at the expiry encoded in its last token",
                        "single-node DHT over the in-memory provider: ring routing and transfer are covered by C03-C10"]
     binary_f = None
@@ -271,6 +271,7 @@ def run(ck):
         fb = ex.submit(ck.build, "certstore")
         f_shared = ex.submit(tlc, "shared", _cfg("files", "shared"), workers=2)
         f_sib = ex.submit(tlc, "sibling", _cfg("files", "sibling"), workers=2)
+        f_fd = ex.submit(tlc, "filedir", _cfg("files", "filedir"), workers=2)
         f_deep = ex.submit(tlc, "deep", _cfg("files", "deep"), workers=4) if ck.thorough else None
         f_mutex = ex.submit(tlc, "mutex", _cfg("locks", nnames=2 if ck.thorough else 1, invs="Mutex", ninst=2, maxt=6), workers=4, timeout=900)
         f_gen = ex.submit(tlc, "lockgen", _cfg("locks", histlen=10, invs="Mutex EmitHist"), simulate={"num": nsim}, depth=60, count=False)
@@ -281,6 +282,7 @@ def run(ck):
     # files
     files(ck, binary, "shared", r_shared, 3000 if ck.thorough else 1500)
     files(ck, binary, "sibling", r_sib, 200)
+    files(ck, binary, "filedir", f_fd.result(), 300)
     if r_deep:
         files(ck, binary, "deep", r_deep, 20000)
         files(ck, binary, "shared", r_shared, 1500, backend="memory")
